@@ -59,6 +59,10 @@ pub enum DateFn {
     Lag,
     AddMonths,
     Roll,
+    /// `bus_date_range(roll(date), roll(date + count days))`: a reversed range when count < 0
+    BusRange,
+    /// `cal_date_range(date, date + count days)`
+    CalRange,
 }
 
 #[derive(Clone, Debug, Serialize, Deserialize, PartialEq)]
@@ -827,6 +831,23 @@ fn sweep_dates<C: DateRoll>(
                     let _ = cal.roll(&d, &m, settlement);
                 }),
             ),
+            DateFn::BusRange => (
+                "DateRoll::bus_date_range",
+                guard(|| {
+                    let e0 = d + chrono::Duration::days(*c as i64);
+                    let (a, b) = (cal.roll_forward_bus_day(&d), cal.roll_forward_bus_day(&e0));
+                    let _ = cal.bus_date_range(&a, &b);
+                    // and the raw end points (an error when they are not business days)
+                    let _ = cal.bus_date_range(&d, &e0);
+                }),
+            ),
+            DateFn::CalRange => (
+                "DateRoll::cal_date_range",
+                guard(|| {
+                    let e0 = d + chrono::Duration::days(*c as i64);
+                    let _ = cal.cal_date_range(&d, &e0);
+                }),
+            ),
         };
         if let Err(p) = res {
             return Err(panic_to(
@@ -1435,7 +1456,32 @@ fn emit_calls(seed: u64, tier: Tier, unit: u64, sink: &mut dyn FnMut(Plan) -> bo
     let mut rng = Rng::new(mix(seed, "C20-calls", unit));
     let r = &mut rng;
     let which = unit % 10;
+    let giant = std::cell::Cell::new(false);
     let gen_cal_choice = |r: &mut Rng, near_day: i64| -> CalChoice {
+        // rarely a closure of centuries (a settlement calendar that "never" opens again
+        // within any horizon of interest): every search loop then runs 10^5 steps
+        if r.chance(0.03) {
+            giant.set(true);
+            let before = r.i64_in(0, 40);
+            let len = r.log_uniform(60_000.0, 400_000.0) as i64;
+            let closed = CalSpec {
+                holidays: ((near_day - before)..(near_day - before + len))
+                    .map(|d| (d * 86_400, 0))
+                    .collect(),
+                mask: if r.chance(0.5) { vec![5, 6] } else { vec![] },
+            };
+            return if r.chance(0.3) {
+                CalChoice::Cal(closed)
+            } else {
+                CalChoice::Union(UnionSpec {
+                    members: vec![CalSpec {
+                        holidays: vec![],
+                        mask: vec![5, 6],
+                    }],
+                    settle: Some(vec![closed]),
+                })
+            };
+        }
         // sometimes a closure of more than a year around the date (a run of consecutive
         // holidays), as the business calendar or as the settlement calendar
         if r.chance(0.12) {
@@ -1490,9 +1536,20 @@ fn emit_calls(seed: u64, tier: Tier, unit: u64, sink: &mut dyn FnMut(Plan) -> bo
                 0 => DateFn::AddDays,
                 1 => DateFn::AddBusDays,
                 2 => DateFn::Lag,
-                _ => DateFn::Roll,
+                _ => match (unit / 10) % 3 {
+                    0 => DateFn::Roll,
+                    1 => DateFn::BusRange,
+                    _ => DateFn::CalRange,
+                },
             };
-            let counts = if func == DateFn::Roll { vec![0] } else { all_i8() };
+            let counts = if func == DateFn::Roll {
+                vec![0]
+            } else if giant.get() {
+                // each call walks the whole closure: a spread of counts, not all 256
+                vec![-128, -127, -65, -2, -1, 0, 1, 2, 64, 126, 127]
+            } else {
+                all_i8()
+            };
             // a user's own calendar type with make-up working days around (and on) the date
             let makeup: Vec<i64> = if r.chance(0.15) {
                 let mut v: Vec<i64> = (0..r.usize_in(1, 4))
@@ -1508,6 +1565,9 @@ fn emit_calls(seed: u64, tier: Tier, unit: u64, sink: &mut dyn FnMut(Plan) -> bo
             for modifier in 0..5u8 {
                 if func != DateFn::AddDays && func != DateFn::Roll && modifier > 0 {
                     break;
+                }
+                if giant.get() && modifier > 0 && modifier != (unit / 10 % 4) as u8 + 1 {
+                    continue;
                 }
                 for settlement in [false, true] {
                     if !sink(Plan::Call(CallSpec::DateSweep {
@@ -1576,6 +1636,13 @@ fn emit_calls(seed: u64, tier: Tier, unit: u64, sink: &mut dyn FnMut(Plan) -> bo
                 }
             } else {
                 rolls.push(RollSpec::Int(r.i64_in(1, 31) as u32));
+            }
+            if giant.get() {
+                // each call walks the whole closure
+                counts.truncate(6);
+                counts.push(lo);
+                counts.push(hi);
+                rolls.truncate(5);
             }
             for roll in rolls {
                 let modifier = r.below(5) as u8;
